@@ -244,6 +244,7 @@ pub struct RunResult {
     pub touched: BTreeSet<String>,
     pub audits: u64,
     pub log: String,
+    pub over_budget: bool,
 }
 
 pub fn run_scenario(sc: &Scenario, spec: &SchedSpec, sched_seed: u64) -> RunResult {
@@ -282,6 +283,11 @@ pub fn run_scenario(sc: &Scenario, spec: &SchedSpec, sched_seed: u64) -> RunResu
                 if a.over > 0 || a.stale > 0 {
                     r.failures.push(("G5a".into(), if a.over > 0 { "audit-over".into() } else { "audit-stale".into() }, format!("audit at step {} (rep {rep}, request {i}): objects={} over={} under={} stale={}", a.ordinal, a.objects, a.over, a.under, a.stale)));
                 }
+            }
+            if out.is_budget() {
+                r.over_budget = true;
+                r.outs.push(out);
+                break 'reps;
             }
             if let Out::Panic(m) = &out {
                 let class = if m.starts_with("G4:") { "gc-count-grew".to_string() } else { format!("panic:{}", m.chars().take(50).collect::<String>()) };
@@ -326,6 +332,11 @@ pub fn run_scenario(sc: &Scenario, spec: &SchedSpec, sched_seed: u64) -> RunResu
             }
             Err(o) => r.failures.push(("G2".into(), "panic:audit".into(), o.short())),
         }
+    }
+    if r.over_budget {
+        // abandoned by the harness: nothing is judged; the program state is dropped as it is
+        r.failures.clear();
+        return r;
     }
     if !panicked {
         // G3: return to baseline
@@ -386,6 +397,9 @@ pub struct Failure {
 
 /// Compares a scheduled run with the reference (`never`) run of the same scenario.
 pub fn judge(reference: &RunResult, run: &RunResult) -> Option<Failure> {
+    if reference.over_budget || run.over_budget {
+        return None;
+    }
     if let Some((inv, class, detail)) = run.failures.first() {
         return Some(Failure { invariant: inv.clone(), class: class.clone(), detail: detail.clone(), observed: Json::str(detail), expected: Json::str("invariant holds") });
     }
@@ -648,6 +662,11 @@ fn one_run(root: u64, i: u64, corpus: &Corpus, enumerate: bool, want_sample: boo
         bump(&mut res.probes, "corpus_scenarios");
     }
     let reference = run_scenario(&sc, &SchedSpec::never(), seed);
+    if reference.over_budget {
+        res.discarded = true;
+        bump(&mut res.probes, "discarded_step_budget");
+        return res;
+    }
     if !use_corpus {
         for (op, out) in sc.ops.iter().zip(reference.outs.iter()) {
             if matches!(op.req, Req::Eval { .. } | Req::Top { .. } | Req::Call { .. }) {
@@ -670,7 +689,7 @@ fn one_run(root: u64, i: u64, corpus: &Corpus, enumerate: bool, want_sample: boo
         res.failure = Some(to_violation(&sc, &SchedSpec::never(), &f, i, &reference.touched, &reference.log, false));
         return res;
     }
-    if reference.steps > MAX_STEPS {
+    if reference.steps > MAX_STEPS || reference.over_budget {
         res.discarded = true;
         return res;
     }
@@ -758,7 +777,8 @@ pub fn batch(root: u64, scenarios: u64, enumerate_every: u64, workers: usize, co
     let step = (scenarios / 64).max(1);
     let mut sampled: Vec<(u64, u64)> = Vec::new();
     const CHUNK: u64 = 20_000;
-    let mut base = 0u64;
+    // VERIF_START=<i> (debugging aid): begin at scenario i
+    let mut base = std::env::var("VERIF_START").ok().and_then(|s| s.parse().ok()).unwrap_or(0u64);
     while base < scenarios {
         let n = CHUNK.min(scenarios - base);
         let results = crate::util::run_pool(n, workers, |k| {
